@@ -33,6 +33,8 @@ type c06ChildIn struct {
 	Aux bool `json:"aux,omitempty"`
 	// Session: a usability session on ONE interpreter (c06_aux.go); Src and Defs are unused.
 	Session *c06Session `json:"session,omitempty"`
+	// Entry: one cell of the entry point x panic site matrix (c06_entry.go).
+	Entry *c06EntryIn `json:"entry,omitempty"`
 }
 
 type c06ChildOut struct {
@@ -174,6 +176,11 @@ func c06Eval(i *interp.Interpreter, src string, timeout time.Duration, plain boo
 
 func c06RunOne(in c06ChildIn, timeout time.Duration) c06ChildOut {
 	o := c06ChildOut{ID: in.ID}
+	if in.Entry != nil {
+		o.Lines = c06RunEntry(*in.Entry, timeout)
+		o.End, o.End2, o.Probe = "ok", "ok", "4242"
+		return o
+	}
 	if in.Session != nil {
 		o.Lines = c06RunSession(*in.Session, timeout)
 		o.End, o.End2, o.Probe = "ok", "ok", "4242"
